@@ -201,6 +201,8 @@ const preludeCore = `
 (define-fun pe_idx ((p Ptr)) Int (pth_idx (p_path p)))
 (define-fun pobj_id ((p Ptr)) Int (p_root p))
 (define-fun rootid ((p Ptr)) Int (p_root p))
+(declare-fun ix (Int Int) Int)
+(assert (forall ((o Int) (k Int)) (! (= (ix o k) (+ o k)) :pattern ((ix o k)))))
 (declare-datatypes ((Slice 0)) (((mk_slice (sl_arr Ptr) (sl_off Int) (sl_len Int) (sl_cap Int)))))
 (declare-datatypes ((Iface 0)) (((INil) (mk_iface (i_typ Int) (i_val Int)))))
 (define-fun wfslice ((s Slice)) Bool (and (<= 0 (sl_off s)) (<= 0 (sl_len s)) (<= (sl_len s) (sl_cap s)) (<= (+ (sl_off s) (sl_cap s)) 72057594037927936) (=> (is_PNull (sl_arr s)) (= (sl_cap s) 0))))
